@@ -13,7 +13,8 @@ Hosts == { <<Str("localhost")>>, <<Str("example"), Str("org")>>, <<Str("a"), Str
 Schemes == { Str("http"), Str("https"), Str("ws"), Str("wss"), Str("ftp") }
 Ports   == { <<>>, Str(":8080") }
 Tails   == { <<>>, Str("/"), Str("/path/x.js"), Str("?q=1"), Str("/p?q=1"), Str("/p#frag"), Str("?q#frag"), Str("/a:b/c"),
-             Str("/p?u=http://other.org/x"), Str("/p//double"), Str("/UPPER/Case.JS?Q=Z"), Str("/@user:pw") }
+             Str("/p?u=http://other.org/x"), Str("/p//double"), Str("/UPPER/Case.JS?Q=Z"), Str("/@user:pw"),
+             Str("?email=john@mail.example.net"), Str("?x=/a@b.example/c") }
 LongTail == Str("/") \o [k \in 1..4100 |-> IF k % 7 = 0 THEN 65 + (k % 26) ELSE 97 + (k % 26)]
 
 MkURL(sc, h, p, t) == sc \o Str("://") \o JoinDots(h) \o p \o t
